@@ -134,10 +134,10 @@ namespace sim
       }
       else if( prog == 8 ) {
          static const char* bodies[] = { "ab", "12", "a1.b", "!", "..", "x9!y", "", "ab?12", "ab?x", "?7", "a.?", "7a7", "ab#", "#", "1.#x" };
-         static const char* open[] = { "(", "[", "{", "<", "|", "/", "@", "$(", "$[", "$/" };
-         static const char* close[] = { ")", "]", "}", ">", "|", "/", "@", ")", "]", "/" };
+         static const char* open[] = { "(", "[", "{", "<", "|", "/", "@", "$(", "$[", "$/", "~" };
+         static const char* close[] = { ")", "]", "}", ">", "|", "/", "@", ")", "]", "/", "~" };
          for( unsigned i = r.range( 1, 5 ); i > 0; --i ) {
-            const unsigned k = r.below( 10 );
+            const unsigned k = r.below( 11 );
             const std::string b = bodies[ r.below( 15 ) ];
             s += open[ k ];
             if( k == 6 ) {
